@@ -6,7 +6,11 @@
 
 package redis
 
-import "strconv"
+import (
+	"bytes"
+	"io"
+	"strconv"
+)
 
 // VerifCrc16 is crc16.
 func VerifCrc16(b []byte) uint16 { return crc16(b) }
@@ -37,3 +41,37 @@ func VerifSlot(key []byte) int {
 	}
 	return n
 }
+
+// VerifDecodeAll decodes messages from r with a reader buffer of bufSize bytes until the
+// first error (at most max messages); the values are returned together at the end.
+func VerifDecodeAll(r io.Reader, bufSize int, max int) ([]*RespValue, error) {
+	d := newDecoder(r, bufSize)
+	var vs []*RespValue
+	for len(vs) < max {
+		v, err := d.Decode()
+		if err != nil {
+			return vs, err
+		}
+		vs = append(vs, v)
+	}
+	return vs, nil
+}
+
+// VerifEncode encodes one value with the package's encoder.
+func VerifEncode(v *RespValue) ([]byte, error) {
+	var b bytes.Buffer
+	e := newEncoder(&b, 4096)
+	if err := e.Encode(v); err != nil {
+		return nil, err
+	}
+	if err := e.Flush(); err != nil {
+		return nil, err
+	}
+	return b.Bytes(), nil
+}
+
+// VerifBtoi64 is btoi64.
+func VerifBtoi64(b []byte) (int64, error) { return btoi64(b) }
+
+// VerifItoa is itoa.
+func VerifItoa(i int64) string { return itoa(i) }
